@@ -288,6 +288,36 @@ func evalShape(n ast.Expr, e env) val {
 	return val{}
 }
 
+// isConst: the sub-expression contains no variable.
+func isConst(n ast.Expr) bool {
+	switch x := n.(type) {
+	case *ast.ParenExpr:
+		return isConst(x.X)
+	case *ast.BasicLit:
+		return true
+	case *ast.UnaryExpr:
+		return isConst(x.X)
+	case *ast.BinaryExpr:
+		return isConst(x.X) && isConst(x.Y)
+	}
+	return false
+}
+
+func hasConstBinary(n ast.Expr) bool {
+	switch x := n.(type) {
+	case *ast.ParenExpr:
+		return hasConstBinary(x.X)
+	case *ast.UnaryExpr:
+		return hasConstBinary(x.X)
+	case *ast.BinaryExpr:
+		if isConst(x.X) && isConst(x.Y) {
+			return true
+		}
+		return hasConstBinary(x.X) || hasConstBinary(x.Y)
+	}
+	return false
+}
+
 func try(f func() val) (v val, ok bool, why string) {
 	defer func() {
 		if r := recover(); r != nil {
@@ -393,6 +423,11 @@ func build(x *Expr, compact bool) (c *Case, nDist, nAlts int, ok bool) {
 	}
 	tv, tok, _ := try(func() val { return typeOf(root) })
 	if !tok {
+		return nil, 0, 0, false
+	}
+	if hasConstBinary(root) {
+		// Go folds constant sub-expressions exactly and rejects their overflow (1<<31 as an int32 operand does not
+		// compile): such expressions are not in the property's domain of int32/bool operands
 		return nil, 0, 0, false
 	}
 	// Go's grouping of every parenthesised group (parsed separately: parentheses make it independent)
